@@ -163,6 +163,9 @@ def create_nxgraph(net, include_pipes=True, respect_status_pipes=True,
 
 def add_branch_component(comp, mg, net, table_name, include_comp, respect_status, weight_getter, valve_et_filter):
     tab = get_edge_table(net, table_name, include_comp)
+    if tab is not None and "et" in tab.columns:
+        # valves attached to a pipe are no edges of their own, their "element" is a pipe index
+        tab = tab[tab["et"] != "pi"]
 
     if tab is not None:
         in_service_name = comp.active_identifier()
